@@ -34,7 +34,9 @@ CONSTANTS
   OldDelDeletedEarly,   \* FALSE (code) | TRUE (seeded C01-s9: old .del unlinked before meta.json is replaced)
   GcProtectsBuilding,   \* TRUE (code: the SegmentMeta inventory) | FALSE (living files = registers only)
   MaxFaults,            \* I/O errors injected into the meta.json replacement (0: none)
-  StoreMetaFirst        \* FALSE (code: the active metas are replaced AFTER the durable write) | TRUE (seeded C11-s9)
+  StoreMetaFirst,       \* FALSE (code: the active metas are replaced AFTER the durable write) | TRUE (seeded C11-s9)
+  KillWaits             \* TRUE (code since the F43 repair: rollback waits for the task the old updater is running)
+                        \* | FALSE (the task goes on next to the new writer and saves ITS metas)
 
 VARIABLES
   regs,        \* the segment registers: set of [s, del, st]; del = 0: no delete file; st \in {"c","u"}
@@ -47,9 +49,10 @@ VARIABLES
   active,      \* the updater's in-memory copy of the metas (active_index_meta): its SegmentMetas protect their files
   ondisk,      \* ghost: the registers as the newest meta.json describes them (what a re-opened writer loads)
   faults,
+  stale,       \* the task a rolled-back writer's updater is still running: [pc, job] (pc = "none": no such task)
   ackedIdx     \* index in metaV of the last commit whose call has returned (1 = the initial meta.json)
 
-vars == <<svars, regs, building, nextS, upc, ujob, gc, ncommit, active, ondisk, faults, ackedIdx>>
+vars == <<svars, regs, building, nextS, upc, ujob, gc, ncommit, active, ondisk, faults, stale, ackedIdx>>
 
 Seg(s) == "s" \o ToString(s)
 Del(s, n) == "d" \o ToString(s) \o "." \o ToString(n)
@@ -57,19 +60,20 @@ FilesOf(R) == {Seg(r.s) : r \in R} \cup {Del(r.s, r.del) : r \in {x \in R : x.de
 NoB == [s |-> 0, by |-> "none", pc |-> "none", src |-> {}]
 NoJob == [kind |-> "none", newregs |-> {}, op |-> 0, publish |-> FALSE]
 NoGc == [todo |-> {}, done |-> {}]
+NoStale == [pc |-> "none", job |-> NoJob]
 LastMeta == metaV[Len(metaV)]
 LastMan == manV[Len(manV)]
 
 Init ==
   /\ SInit /\ regs = {} /\ building = NoB /\ nextS = 1 /\ upc = "idle" /\ ujob = NoJob /\ gc = NoGc
-  /\ ncommit = 0 /\ ackedIdx = 1 /\ active = {} /\ ondisk = {} /\ faults = 0
+  /\ ncommit = 0 /\ ackedIdx = 1 /\ active = {} /\ ondisk = {} /\ faults = 0 /\ stale = NoStale
 
 (* ------------------------------ builder: worker or merge thread ------------------------------ *)
 StartWorker ==
   /\ building = NoB /\ nextS <= NSeg
   /\ building' = [s |-> nextS, by |-> "worker", pc |-> IF RegisterFirst THEN "register" ELSE "create", src |-> {}]
   /\ nextS' = nextS + 1
-  /\ UNCHANGED <<svars, regs, upc, ujob, gc, ncommit, active, ondisk, faults, ackedIdx>>
+  /\ UNCHANGED <<svars, regs, upc, ujob, gc, ncommit, active, ondisk, faults, stale, ackedIdx>>
 \* start_merge runs on the updater: two segments of the same status
 StartMerge ==
   /\ building = NoB /\ nextS <= NSeg /\ upc = "idle"
@@ -77,22 +81,22 @@ StartMerge ==
        /\ a.s < b.s /\ a.st = b.st
        /\ building' = [s |-> nextS, by |-> "merge", pc |-> IF RegisterFirst THEN "register" ELSE "create", src |-> {a.s, b.s}]
   /\ nextS' = nextS + 1
-  /\ UNCHANGED <<svars, regs, upc, ujob, gc, ncommit, active, ondisk, faults, ackedIdx>>
+  /\ UNCHANGED <<svars, regs, upc, ujob, gc, ncommit, active, ondisk, faults, stale, ackedIdx>>
 BuildRegister ==
   /\ building.pc = "register"
   /\ AWriteMan(LastMan \cup {Seg(building.s)})
   /\ building' = [building EXCEPT !.pc = IF RegisterFirst THEN "create" ELSE "term"]
-  /\ UNCHANGED <<regs, nextS, upc, ujob, gc, ncommit, active, ondisk, faults, ackedIdx>>
+  /\ UNCHANGED <<regs, nextS, upc, ujob, gc, ncommit, active, ondisk, faults, stale, ackedIdx>>
 BuildCreate ==
   /\ building.pc = "create"
   /\ Create(Seg(building.s))
   /\ building' = [building EXCEPT !.pc = IF RegisterFirst THEN "term" ELSE "register"]
-  /\ UNCHANGED <<regs, nextS, upc, ujob, gc, ncommit, active, ondisk, faults, ackedIdx>>
+  /\ UNCHANGED <<regs, nextS, upc, ujob, gc, ncommit, active, ondisk, faults, stale, ackedIdx>>
 BuildTerm ==
   /\ building.pc = "term"
   /\ Terminate(Seg(building.s))
   /\ building' = [building EXCEPT !.pc = "done"]
-  /\ UNCHANGED <<regs, nextS, upc, ujob, gc, ncommit, active, ondisk, faults, ackedIdx>>
+  /\ UNCHANGED <<regs, nextS, upc, ujob, gc, ncommit, active, ondisk, faults, stale, ackedIdx>>
 
 (* ---------------------------------- updater tasks ---------------------------------- *)
 AddSegment ==
@@ -100,7 +104,7 @@ AddSegment ==
   /\ DropWriter(Seg(building.s))
   /\ regs' = regs \cup {[s |-> building.s, del |-> 0, st |-> "u"]}
   /\ building' = NoB
-  /\ UNCHANGED <<nextS, upc, ujob, gc, ncommit, active, ondisk, faults, ackedIdx>>
+  /\ UNCHANGED <<nextS, upc, ujob, gc, ncommit, active, ondisk, faults, stale, ackedIdx>>
 
 Committed(R) == {[s |-> r.s, del |-> r.del, st |-> "c"] : r \in R}
 \* the commit may first write a new delete file for one segment (advance_deletes / purge_deletes)
@@ -113,7 +117,7 @@ StartCommit ==
           /\ ujob' = [kind |-> "commit", op |-> ncommit + 1, publish |-> TRUE,
                       newregs |-> Committed((regs \ {r}) \cup {[s |-> r.s, del |-> ncommit + 1, st |-> "c"]})]
           /\ upc' = "del"
-  /\ UNCHANGED <<svars, regs, building, nextS, gc, active, ondisk, faults, ackedIdx>>
+  /\ UNCHANGED <<svars, regs, building, nextS, gc, active, ondisk, faults, stale, ackedIdx>>
 \* the new delete file: registered, created, terminated (three Directory operations, no step of
 \* another process between them matters for the invariants, so they are one step here)
 CommitDelFile ==
@@ -127,7 +131,7 @@ CommitDelFile ==
         /\ termd' = termd \cup {f}
         /\ ghosts' = ghosts \cup (old \cap entDur)
   /\ upc' = "sync1"
-  /\ UNCHANGED <<entDur, live, metaV, metaDur, manDur, regs, building, nextS, ujob, gc, ncommit, active, ondisk, faults, ackedIdx>>
+  /\ UNCHANGED <<entDur, live, metaV, metaDur, manDur, regs, building, nextS, ujob, gc, ncommit, active, ondisk, faults, stale, ackedIdx>>
 SegIds(R) == {r.s : r \in R}
 AddsSegment == \E r \in ujob.newregs : Seg(r.s) \notin LastMeta.files
 UpdSync1 ==
@@ -136,7 +140,7 @@ UpdSync1 ==
      ELSE IF SyncBeforeMeta = "always" \/ (SyncBeforeMeta = "ifnewseg" /\ AddsSegment)
      THEN SyncDir ELSE UNCHANGED svars
   /\ upc' = "meta"
-  /\ UNCHANGED <<regs, building, nextS, ujob, gc, ncommit, active, ondisk, faults, ackedIdx>>
+  /\ UNCHANGED <<regs, building, nextS, ujob, gc, ncommit, active, ondisk, faults, stale, ackedIdx>>
 Published == {r \in ujob.newregs : r.st = "c"}
 UpdMeta ==
   /\ upc = "meta"
@@ -145,7 +149,7 @@ UpdMeta ==
      ELSE UNCHANGED <<svars, active, ondisk>>
   /\ regs' = ujob.newregs
   /\ upc' = "sync2"
-  /\ UNCHANGED <<building, nextS, ujob, gc, ncommit, faults, ackedIdx>>
+  /\ UNCHANGED <<building, nextS, ujob, gc, ncommit, faults, stale, ackedIdx>>
 \* the replacement of meta.json fails (I/O error): the registers are already swapped; the commit reports
 \* the error and the updater is dead (F40 repair); an end_merge just reports it (no GC in that task)
 UpdMetaFail ==
@@ -155,22 +159,22 @@ UpdMetaFail ==
   /\ active' = IF StoreMetaFirst THEN FilesOf(Published) ELSE active
   /\ upc' = IF ujob.kind = "commit" THEN "dead" ELSE "idle"
   /\ ujob' = NoJob
-  /\ UNCHANGED <<svars, building, nextS, gc, ncommit, ondisk, ackedIdx>>
+  /\ UNCHANGED <<svars, building, nextS, gc, ncommit, ondisk, stale, ackedIdx>>
 \* the caller drops / rolls back the writer and opens a new one: registers and active metas from meta.json
 Reopen ==
   /\ upc = "dead" /\ building = NoB
   /\ regs' = ondisk /\ active' = FilesOf(ondisk) /\ upc' = "idle"
-  /\ UNCHANGED <<svars, building, nextS, ujob, gc, ncommit, ondisk, faults, ackedIdx>>
+  /\ UNCHANGED <<svars, building, nextS, ujob, gc, ncommit, ondisk, faults, stale, ackedIdx>>
 \* IndexWriter::garbage_collect_files, any time the updater is idle
 ExplicitGc ==
   /\ upc = "idle" /\ ujob = NoJob /\ faults > 0
   /\ upc' = "gc" /\ ujob' = [NoJob EXCEPT !.kind = "gc"]
-  /\ UNCHANGED <<svars, regs, building, nextS, gc, ncommit, active, ondisk, faults, ackedIdx>>
+  /\ UNCHANGED <<svars, regs, building, nextS, gc, ncommit, active, ondisk, faults, stale, ackedIdx>>
 UpdSync2 ==
   /\ upc = "sync2"
   /\ IF ujob.publish /\ SyncAfterMeta THEN SyncDir ELSE UNCHANGED svars
   /\ upc' = "gc"
-  /\ UNCHANGED <<regs, building, nextS, ujob, gc, ncommit, active, ondisk, faults, ackedIdx>>
+  /\ UNCHANGED <<regs, building, nextS, ujob, gc, ncommit, active, ondisk, faults, stale, ackedIdx>>
 
 \* end_merge: the merged segment replaces its sources; meta.json is rewritten only when they were committed
 EndMerge ==
@@ -184,7 +188,7 @@ EndMerge ==
      ELSE \* a source is gone: the merge is abandoned, its files are garbage
           ujob' = [kind |-> "merge", op |-> LastMeta.op, publish |-> FALSE, newregs |-> regs]
   /\ building' = NoB /\ upc' = "sync1"
-  /\ UNCHANGED <<regs, nextS, gc, ncommit, active, ondisk, faults, ackedIdx>>
+  /\ UNCHANGED <<regs, nextS, gc, ncommit, active, ondisk, faults, stale, ackedIdx>>
 
 (* ------------------------------ garbage collection ------------------------------ *)
 \* list_files(): every live SegmentMeta (registers AND the segment a merge thread is building)
@@ -193,18 +197,18 @@ GcList ==
   /\ upc = "gc"
   /\ gc' = [todo |-> LastMan \ Living, done |-> {}]
   /\ upc' = "gcdel"
-  /\ UNCHANGED <<svars, regs, building, nextS, ujob, ncommit, active, ondisk, faults, ackedIdx>>
+  /\ UNCHANGED <<svars, regs, building, nextS, ujob, ncommit, active, ondisk, faults, stale, ackedIdx>>
 GcDel ==
   /\ upc = "gcdel" /\ gc.todo # {}
   /\ \E f \in gc.todo :
        /\ IF f \in exists THEN Delete(f) ELSE UNCHANGED svars     \* FileDoesNotExist counts as deleted
        /\ gc' = [todo |-> gc.todo \ {f}, done |-> gc.done \cup {f}]
-  /\ UNCHANGED <<regs, building, nextS, upc, ujob, ncommit, active, ondisk, faults, ackedIdx>>
+  /\ UNCHANGED <<regs, building, nextS, upc, ujob, ncommit, active, ondisk, faults, stale, ackedIdx>>
 GcSync ==
   /\ upc = "gcdel" /\ gc.todo = {}
   /\ IF gc.done # {} THEN SyncDir ELSE UNCHANGED svars
   /\ upc' = "gcman"
-  /\ UNCHANGED <<regs, building, nextS, ujob, gc, ncommit, active, ondisk, faults, ackedIdx>>
+  /\ UNCHANGED <<regs, building, nextS, ujob, gc, ncommit, active, ondisk, faults, stale, ackedIdx>>
 GcDone ==
   /\ upc = "gcman"
   /\ IF gc.done # {} THEN AWriteMan(LastMan \ gc.done) ELSE UNCHANGED svars
@@ -212,9 +216,34 @@ GcDone ==
   /\ ackedIdx' = IF ujob.kind = "commit"
                  THEN CHOOSE i \in 1..Len(metaV) : metaV[i].op = ujob.op /\ \A j \in 1..(i-1) : metaV[j].op # ujob.op
                  ELSE ackedIdx
-  /\ UNCHANGED <<regs, building, nextS, ncommit, active, ondisk, faults>>
+  /\ UNCHANGED <<regs, building, nextS, ncommit, active, ondisk, faults, stale>>
+
+(* ------------------------------ rollback next to a running task ------------------------------ *)
+\* IndexWriter::rollback: kill the updater, build a new writer from meta.json.  The killed updater
+\* refuses NEW tasks; with KillWaits the task it is running is finished first (so rollback is only
+\* possible between tasks), without it the task goes on as `stale`
+Rollback ==
+  /\ building = NoB /\ stale = NoStale /\ ncommit < MaxCommits
+  /\ upc \in (IF KillWaits THEN {"idle"} ELSE {"idle", "sync1", "meta"})
+  /\ stale' = IF upc = "idle" THEN NoStale ELSE [pc |-> upc, job |-> ujob]
+  /\ regs' = ondisk /\ active' = FilesOf(ondisk) /\ upc' = "idle" /\ ujob' = NoJob /\ gc' = NoGc
+  /\ UNCHANGED <<svars, building, nextS, ncommit, ondisk, faults, ackedIdx>>
+\* the stale task: directory sync, then meta.json from ITS registers under ITS opstamp
+StaleSync ==
+  /\ stale.pc = "sync1"
+  /\ IF stale.job.publish THEN SyncDir ELSE UNCHANGED svars
+  /\ stale' = [stale EXCEPT !.pc = "meta"]
+  /\ UNCHANGED <<regs, building, nextS, upc, ujob, gc, ncommit, active, ondisk, faults, ackedIdx>>
+StaleMeta ==
+  /\ stale.pc = "meta"
+  /\ IF stale.job.publish
+     THEN AWriteMeta(FilesOf({r \in stale.job.newregs : r.st = "c"}), stale.job.op) /\ ondisk' = {r \in stale.job.newregs : r.st = "c"}
+     ELSE UNCHANGED <<svars, ondisk>>
+  /\ stale' = NoStale
+  /\ UNCHANGED <<regs, building, nextS, upc, ujob, gc, ncommit, active, faults, ackedIdx>>
 
 Next ==
+  \/ Rollback \/ StaleSync \/ StaleMeta
   \/ StartWorker \/ StartMerge \/ BuildRegister \/ BuildCreate \/ BuildTerm \/ AddSegment
   \/ StartCommit \/ CommitDelFile \/ UpdSync1 \/ UpdMeta \/ UpdMetaFail \/ Reopen \/ ExplicitGc \/ UpdSync2 \/ EndMerge
   \/ GcList \/ GcDel \/ GcSync \/ GcDone
@@ -223,12 +252,16 @@ Spec == Init /\ [][Next]_vars
 (* ---------------------------------- properties ---------------------------------- *)
 \* C01 (2): whatever survives a crash, it is the last acknowledged commit or a later state
 CrashDurable == Lo(metaDur) >= ackedIdx
+\* C01 / C02 / C05: the visible meta.json never falls back behind an acknowledged commit
+NoCommitLost == LastMeta.op >= metaV[ackedIdx].op
 \* C01 (3)(4): CrashSafe (Storage.tla): every surviving meta.json finds all its files, complete
 \* C10: a file no live SegmentMeta needs is gone once the GC has run to completion
 GcComplete == (upc = "idle" /\ building = NoB /\ ujob = NoJob) =>
                  \A f \in exists : f \in FilesOf(regs) \/ f \in LastMan
-\* (after an I/O error the files of the failed publication wait for the next collection: GcComplete covers them)
-GcTight == (upc = "idle" /\ building = NoB /\ faults = 0) => exists \subseteq FilesOf(regs)
+\* C10 "nothing leaks": whenever a collection has run to its end with no segment under construction,
+\* the directory holds exactly the files of the registers (rollbacks and failed publications leave
+\* files behind only until that next collection)
+GcTight == [][(upc = "gcman" /\ upc' = "idle" /\ building = NoB /\ stale = NoStale) => exists' \subseteq FilesOf(regs') \cup active']_vars
 \* C10 (never delete what is needed): a visible meta.json never loses a file
 NeverDeletesNeeded == \A f \in LastMeta.files : f \in exists
 \* a file under construction is never deleted under its writer
